@@ -7,6 +7,7 @@ RGB sources are always defined; RGBA: alpha ≠ 0; floats: not NaN; 3×float16: 
 integers: 0 is the undefined value.
 -/
 import ToastyVerif.Model.Pixels
+import ToastyVerif.Gen.Plumbing
 
 namespace C15
 open PixelBase Pixels Gen.Masks
@@ -170,5 +171,9 @@ theorem sliceRev_spec (bs s0 len r i : Nat) : sliceRev bs s0 len r = some i ↔ 
 example : fill F32 ⟨sliceRev 5 0 2, sliceFwd 1 0 1⟩ (fun i _ => [some (i : Int)]) 4 1 = [some 1]
     ∧ fill F32 ⟨sliceRev 5 0 2, sliceFwd 1 0 1⟩ (fun i _ => [some (i : Int)]) 5 1 = [some 0]
     ∧ fill F32 ⟨sliceRev 5 0 2, sliceFwd 1 0 1⟩ (fun i _ => [some (i : Int)]) 3 1 = [none] := by decide
+
+/-- **entry_points**: the call sites through which this property's workflows reach the modelled functions have, in the source as
+it is now, the argument plumbing the model assumes (facts re-extracted on every run, `Gen/Plumbing.lean`) -/
+theorem entry_points : Gen.Plumbing.update_image_writes_back_plainly = true := by decide
 
 end C15
